@@ -530,17 +530,6 @@ theorem mkMsg_cfg (lg lg0 : Logger) (h1 : lg.wantTs = lg0.wantTs) (h2 : lg.wantT
     (e : Env) (c : Call) : mkMsg lg e c = mkMsg lg0 e c := by
   unfold mkMsg; rw [h1, h2]
 
-theorem drop_cons_facts {α : Type} (l : List α) (n : Nat) (x : α) (r : List α) (h : l.drop n = x :: r) :
-    l[n]? = some x ∧ l.drop (n + 1) = r ∧ n < l.length := by
-  have h1 : (l.drop n).head? = some x := by rw [h]; rfl
-  rw [List.head?_drop] at h1
-  have h2 : (l.drop n).tail = r := by rw [h]; rfl
-  rw [List.tail_drop] at h2
-  refine ⟨h1, h2, ?_⟩
-  exact Nat.lt_of_not_le (fun hle => by
-    have := List.drop_of_length_le hle
-    rw [this] at h; cases h)
-
 /-- completeness invariant: every call a producer has started is accounted for -/
 structure ACpl (lg0 : Logger) (prog0 : Nat → List (Env × Call)) (s : AState) : Prop where
   cfg   : s.lg.wantTs = lg0.wantTs ∧ s.lg.wantTid = lg0.wantTid ∧ s.lg.lowest = lg0.lowest
